@@ -53,7 +53,8 @@ def parseFilt (v : Val) : Option (Filt Float) :=
   | _ => none
 
 /-- `C12.filter <filt> <orders: list of index lists> <sim>` →
-    score | err, gradient `[s][r][j]`, documented value, documented value (sim. bandwidth, lnkde) -/
+    score | err, gradient `[s][r][j]`, documented value, log-normal KDE value with the
+    docstring's bandwidth (from the measured log-values) -/
 def filter : Op
   | [fv, ordsV, simV] => do
     let F0 ← parseFilt fv
@@ -70,7 +71,8 @@ def filter : Op
     | .ok F =>
       let doc := docVal F.kind F.m n F.R F.T F.obs y
       let docSim := isum F.R (fun r => isum F.T (fun j =>
-        msum F.m (fun i => F.obs i r j) (docTermLnkdeSim n (fun s => y s r j))))
+        msum F.m (fun i => F.obs i r j)
+          (docTermLnkdeMeasured F.m n (fun i => F.obs i r j) (fun s => y s r j))))
       some [llVal (F.ll n y), grid n F.R F.T (F.grad n y), .flt doc, .flt docSim]
   | _ => none
 
